@@ -35,8 +35,13 @@ def E(i):
 class Recorder:
     """Event sink + the per-scenario context the projections need."""
 
-    def __init__(self, app, env=None):
+    def __init__(self, app, env=None, events_meta=None):
         self.app = app
+        self.events_meta = events_meta or []     # [{id, etype, t0, t1, ident, ...}] (ticks from start)
+        self.applied_truth = {}                  # agent id -> [event ids applied since last merge]
+        self.applied_est = {}
+        self.est_delivered = []                  # ids delivered to estimate agents in this phase
+        self.bias_end_emitted = False
         self.events: list[dict] = []
         self.k = 0
         self.saved_this_step = True   # the initial save belongs to "step 0"
@@ -70,6 +75,30 @@ class Recorder:
             out.append([S(sid), self.step_of(ch["time_last_tasked"]), self.pointed_target(sid, ch["boresight"])])
         return out
 
+    def tick_of_jd(self, jd) -> int:
+        return int(round((float(jd) - float(self.app.clock.julian_date_start)) * 86400.0))
+
+    def event_id(self, etype, t0_tick, ident):
+        for m in self.events_meta:
+            if m["etype"] == etype and m["t0"] == t0_tick and m["ident"] == ident:
+                return m["id"]
+        return f"unknown:{etype}:{t0_tick}:{ident}"
+
+    def impulse_id(self, agent_id, sim_time):
+        t = int(round(float(sim_time)))
+        for m in self.events_meta:
+            if m["etype"] == "impulse" and m["ident"] == agent_id and m["t0"] == t:
+                return m["id"]
+        return f"unknown:impulse:{t}:{agent_id}"
+
+    def bias_proj(self):
+        out = []
+        for sid, sa in sorted(self.app.sensor_agents.items()):
+            ids = sorted(self.event_id("sensor_time_bias", self.tick_of_jd(ev.start_time_jd), sid)
+                         for ev in sa.sensor_time_bias_event_queue)
+            out.append([S(sid), ids])
+        return out
+
     def pointed_target(self, sid, boresight):
         """Which commanded pointing (this step) does this boresight equal? ("none" if no match)"""
         b = np.asarray(boresight, dtype=float).ravel()
@@ -91,9 +120,9 @@ def rec() -> Recorder | None:
     return _REC[0]
 
 
-def start(app, env=None) -> Recorder:
+def start(app, env=None, events_meta=None) -> Recorder:
     install()
-    _REC[0] = Recorder(app, env)
+    _REC[0] = Recorder(app, env, events_meta)
     return _REC[0]
 
 
@@ -142,6 +171,8 @@ def install():
         r.k += 1
         r.saved_this_step = False
         r.in_step = True
+        r.bias_end_emitted = False
+        r.est_delivered = []
         r.emit("BeginStep", k=r.k)
 
     def after_step(r, self, a, k, res):
@@ -153,11 +184,13 @@ def install():
     _wrap(ap.PropagateRegistration, "processResults", None,
           lambda r, self, a, k, res: r.emit(
               "CompletePropagate", a=(T if self._registrant.simulation_id in r.app.target_agents else S)(
-                  self._registrant.simulation_id), at=r.step_of(self._registrant.time)))
+                  self._registrant.simulation_id), at=r.step_of(self._registrant.time),
+              applied=sorted(r.applied_truth.pop(self._registrant.simulation_id, []))))
     _wrap(ap.PropagateExecutor, "join", None, lambda r, self, a, k, res: r.emit("JoinPropagate"))
     _wrap(ep.EstPredictRegistration, "processResults", None,
           lambda r, self, a, k, res: r.emit("CompletePredict", t=T(self._registrant.simulation_id),
-                                            at=r.step_of(self._registrant.time)))
+                                            at=r.step_of(self._registrant.time),
+                                            applied=sorted(r.applied_est.pop(self._registrant.simulation_id, []))))
     _wrap(ep.EstPredictExecutor, "join", None, lambda r, self, a, k, res: r.emit("JoinPredict"))
     _wrap(eu.EstUpdateRegistration, "processResults", None,
           lambda r, self, a, k, res: r.emit(
@@ -168,7 +201,7 @@ def install():
     # -- engine --------------------------------------------------------------------------
     def before_assess(r, self, a, k):
         r.engine = self
-        r.emit("EngineReset", e=E(self.unique_id))
+        r.emit("EngineReset", e=E(self.unique_id), bias=r.bias_proj())
 
     _wrap(CentralizedTaskingEngine, "assess", before_assess, None)
     _wrap(trg.TaskingRewardRegistration, "processResults", None,
@@ -226,6 +259,83 @@ def install():
         return orig_collect(self, estimate_eci, target_agent, background_agents)
 
     Sensor.collectObservations = collect
+
+    # -- events ---------------------------------------------------------------------------
+    import resonaate.scenario.scenario as scen_mod
+    from resonaate.agents.estimate_agent import EstimateAgent
+    from resonaate.agents.sensing_agent import SensingAgent
+    from resonaate.data import events as ev_mod
+    from resonaate.data.events import EventScope
+    from resonaate.dynamics.integration_events import scheduled_impulse as imp_mod
+    from resonaate.scenario.clock import ScenarioClock
+
+    from . import sched as _sched
+
+    def ident_of(event):
+        et = event.event_type
+        if et in ("target_addition", "sensor_addition", "agent_removal"):
+            return event.agent_id
+        return event.scope_instance_id
+
+    def after_handle(r, self, a, k, res):
+        inst = a[0]
+        eid = r.event_id(self.event_type, r.tick_of_jd(self.start_time_jd), ident_of(self))
+        if isinstance(inst, EstimateAgent):
+            r.est_delivered.append(eid)
+            return
+        if self.event_type in ("target_addition", "sensor_addition", "agent_removal"):
+            is_t = self.event_type == "target_addition" or getattr(self, "agent_type", "") == "target"
+            handler = (T if is_t else S)(self.agent_id)
+        elif self.event_type == "task_priority":
+            handler = E(inst.unique_id)
+        elif self.event_type == "sensor_time_bias":
+            handler = S(inst.simulation_id)
+        else:
+            handler = T(inst.simulation_id) if inst.simulation_id in r.app.target_agents else S(inst.simulation_id)
+        r.emit("Deliver", id=eid, handler=handler)
+
+    def all_subclasses(c):
+        out = []
+        for sc in c.__subclasses__():
+            out.append(sc)
+            out.extend(all_subclasses(sc))
+        return out
+
+    for cls in set(all_subclasses(ev_mod.Event)):
+        if "handleEvent" in cls.__dict__:
+            _wrap(cls, "handleEvent", None, after_handle)
+
+    orig_hre = scen_mod.handleRelevantEvents
+
+    def hre(scope_instance, database, event_scope, *a, **k):
+        res = orig_hre(scope_instance, database, event_scope, *a, **k)
+        r = _REC[0]
+        if r is not None and event_scope == EventScope.SCENARIO_STEP:
+            r.emit("EndStepEvents")
+        return res
+
+    scen_mod.handleRelevantEvents = hre
+    _wrap(ScenarioClock, "ticToc", None,
+          lambda r, self, a, k, res: r.emit("TicToc", k=r.step_of(self.time), estq=sorted(r.est_delivered)))
+
+    def before_prune_bias(r, self, a, k):
+        if not r.bias_end_emitted and r.in_step:
+            r.bias_end_emitted = True
+            r.emit("EndBiasEvents")
+
+    _wrap(SensingAgent, "pruneTimeBiasEvents", before_prune_bias, None)
+    _wrap(trg.TaskingRewardExecutor, "join", None, lambda r, self, a, k, res: r.emit("RewardJoined"))
+
+    def after_dv(r, self, a, k, res):
+        job = _sched.CURRENT_JOB[-1] if _sched.CURRENT_JOB else None
+        eid = r.impulse_id(self.agent_id, self.time)
+        if job == "asyncPropagate":
+            r.applied_truth.setdefault(self.agent_id, []).append(eid)
+        elif job == "asyncPredict":
+            r.applied_est.setdefault(self.agent_id, []).append(eid)
+
+    for cls in (imp_mod.ScheduledECIImpulse, imp_mod.ScheduledNTWImpulse):
+        _wrap(cls, "getStateChange", None, after_dv)
 
     # -- output --------------------------------------------------------------------------
     def after_save(r, self, a, k, res):
